@@ -2,7 +2,7 @@
 import json
 from fractions import Fraction
 from harness import smlib as S
-from harness.common import pmap, lean_query, guard, fr
+from harness.common import pmap, lean_query, guard, fr, safe_judge
 from harness.c01 import chunks
 
 LEVEL = "translation_validation"
@@ -53,6 +53,7 @@ def near_threshold(P, V, lam):
     return False
 
 
+@safe_judge
 def judge(R, it, res, cert, lean_cert, sim_ans):
     P1, P2, V1, V2 = it["P1"], it["P2"], it["V1"], it["V2"]
     n = len(P1)
